@@ -8,6 +8,7 @@ import HydroVerif.Lemmas.C07Grid
 import HydroVerif.Lemmas.C06Table
 import HydroVerif.Lemmas.C06Bfs
 import Mathlib.Tactic.Ring
+import Mathlib.Data.List.Perm.Subperm
 
 namespace HydroVerif.C06
 open HydroVerif.C07
@@ -504,7 +505,8 @@ theorem store_fold_room (nval : Int) (inlets : List Int) :
         unfold store; rw [if_neg ha, if_neg h1, if_neg h2]
       rw [hs]
       obtain ⟨st', e1, e2, e3⟩ := ih { area := st.area ++ [a], buf2 := st.buf2 ++ [a] }
-        (by simp; omega) (by simp; omega)
+        (by simp only [List.length_append, List.length_singleton]; omega)
+        (by simp only [List.length_append, List.length_singleton]; push_cast; omega)
       refine ⟨st', e1, ?_, ?_⟩
       · rw [e2, hf]; simp
       · rw [e3, hf]; simp
@@ -523,13 +525,15 @@ theorem expand_fold_room (nval : Int) (inlets : List Int) :
     rw [List.foldlM_cons]
     rw [List.flatMap_cons, List.length_append] at hroom
     push_cast at hroom
+    have hu : (upF codes g inlets c).length =
+        ((upstreamCells codes g c).filter (fun u => decide (u ∉ inlets))).length := rfl
     obtain ⟨st1, e1, e2, e3⟩ := store_fold_room nval inlets (upstreamCells codes g c) st hb
-      (by unfold upF at hroom; omega)
+      (by omega)
     have hx : expandCell codes g nval inlets st c = .ok st1 := e1
     rw [hx]
     obtain ⟨st', f1, f2, f3⟩ := ih st1
       (by rw [e2, e3, List.length_append, List.length_append]; omega)
-      (by rw [e2, List.length_append]; push_cast; unfold upF at hroom; omega)
+      (by rw [e2, List.length_append]; push_cast; omega)
     refine ⟨st', f1, ?_, ?_⟩
     · rw [f2, e2, List.flatMap_cons, List.append_assoc]; rfl
     · rw [f3, e3, List.flatMap_cons, List.append_assoc]; rfl
@@ -585,6 +589,7 @@ theorem areaLoop_room {o : Int} (ho : validCell g.nrows g.ncols o = true)
       by_cases hk : k = 0
       · subst hk
         rw [if_pos ⟨rfl, by omega⟩] at hroom
+        simp only [Nat.zero_add] at hroom hlen2 hlen
         have hfull : ¬ (st'.area.length : Int) = nval - 1 := by rw [hlen2]; push_cast; omega
         have hrec : areaLoop codes g o inlets nval (fuel + 1) 0 area (Bfs.layer (upStep codes g inlets) o 0) =
             areaLoop codes g o inlets nval fuel 1 (st'.area ++ [o]) (Bfs.layer (upStep codes g inlets) o 1) := by
@@ -594,7 +599,6 @@ theorem areaLoop_room {o : Int} (ho : validCell g.nrows g.ncols o = true)
         · have hc2 : ¬ (1 = 0 ∧ 1 ≤ n) := by omega
           rw [if_neg hc2, List.length_append, List.length_singleton, hlen2]
           push_cast
-          simp only [Nat.zero_add] at hroom
           omega
         · rw [List.length_append, List.length_singleton, hlen2]; push_cast; push_cast at hfuel; omega
       · have hc1 : ¬ (k = 0 ∧ 1 ≤ n) := by omega
@@ -687,6 +691,33 @@ theorem delineateArea_cases (o : Int) (inlets : List Int) (nval : Int) :
       have h2f : validCell g.nrows g.ncols o = false := by simpa using h2
       rw [h2f]
       exact ⟨h1', rfl, rfl⟩
+
+/-- with valid arguments, a search that stops at layer `n` and `nval - 1` slots for what it finds: success -/
+theorem delineateArea_ok_of_room {o : Int} {inlets : List Int} {nval : Int} (n : Nat)
+    (ho : validCell g.nrows g.ncols o = true) (hin : ∀ m ∈ inlets, validCell g.nrows g.ncols m = true)
+    (hstop : Bfs.layer (upStep codes g inlets) o (n + 1) = [])
+    (hroom : (if 1 ≤ n then (1 : Int) else 0) +
+      ((Bfs.layersFrom (upStep codes g inlets) o 0 n).length : Int) ≤ nval - 1) :
+    ∃ A, delineateArea codes g o inlets nval = .ok A := by
+  have hl : (0 : Int) ≤ ((Bfs.layersFrom (upStep codes g inlets) o 0 n).length : Int) := by omega
+  have h1 : ¬ nval < 1 := by split at hroom <;> omega
+  have h3 : ¬ inlets.any (fun m => !validCell g.nrows g.ncols m) = true := by
+    rw [List.any_eq_true]
+    rintro ⟨m, hm, hmv⟩
+    rw [hin m hm] at hmv; simp at hmv
+  unfold delineateArea
+  rw [if_neg h1]
+  have h2' : (!validCell g.nrows g.ncols o) = false := by simp [ho]
+  rw [h2']
+  simp only [Bool.false_eq_true, if_false]
+  rw [if_neg h3]
+  have hl0 : [o] = Bfs.layer (upStep codes g inlets) o 0 := rfl
+  rw [hl0]
+  apply areaLoop_room ho inlets nval n hstop (nval.toNat + 1) 0 [] (Nat.zero_le n)
+  · have e : (if (0 = 0 ∧ 1 ≤ n) then (1 : Int) else 0) = (if 1 ≤ n then (1 : Int) else 0) := by
+      by_cases hn : 1 ≤ n <;> simp [hn]
+    rw [e, Nat.sub_zero]; simp only [List.length_nil]; push_cast; omega
+  · simp only [List.length_nil]; push_cast; omega
 
 /-! ### hole filling -/
 
@@ -1131,5 +1162,142 @@ theorem chainCells_spec : ∀ (n : Nat) (c : Int),
             simp; omega
           rw [this]
           simpa [chainCell] using h3 hlt'
+
+
+/-! ### every cell of a delineated area meets the hypotheses of the flow-path theorem -/
+
+theorem walk_split {C : Type} (down : C → Option C) (j k : Nat) (c o : C)
+    (h : Bfs.walk down (j + k) c = some o) :
+    ∃ x, Bfs.walk down j c = some x ∧ Bfs.walk down k x = some o := by
+  rw [Bfs.walk_add] at h
+  cases hx : Bfs.walk down j c with
+  | none => rw [hx] at h; simp at h
+  | some x => rw [hx] at h; exact ⟨x, rfl, by simpa using h⟩
+
+theorem walk_join {C : Type} (down : C → Option C) (j k : Nat) (c x o : C)
+    (h1 : Bfs.walk down j c = some x) (h2 : Bfs.walk down k x = some o) :
+    Bfs.walk down (j + k) c = some o := by
+  rw [Bfs.walk_add, h1]; simpa using h2
+
+/-- a walk (with any inlets) follows `chainCell` -/
+theorem walk_eq_chainCell {inlets : List Int} : ∀ (j : Nat) (c x : Int),
+    Bfs.walk (downStep codes g inlets) j c = some x → x = chainCell codes g j c := by
+  intro j
+  induction j with
+  | zero => intro c x h; simp only [Bfs.walk, Option.some.injEq] at h; rw [← h]; rfl
+  | succ j ih =>
+    intro c x h
+    have h' : Reaches codes g inlets (j + 1) c x := h
+    obtain ⟨_, _, _, h2⟩ := reaches_succ_iff.1 h'
+    exact ih _ _ h2
+
+/-- fewer inlets, more walks -/
+theorem reaches_nil_of_reaches {inlets : List Int} : ∀ (k : Nat) (c o : Int),
+    Reaches codes g inlets k c o → Reaches codes g [] k c o := by
+  intro k
+  induction k with
+  | zero => intro c o h; exact reaches_zero_iff.2 (reaches_zero_iff.1 h)
+  | succ k ih =>
+    intro c o h
+    obtain ⟨h1, _, h3, h4⟩ := reaches_succ_iff.1 h
+    exact reaches_succ_iff.2 ⟨h1, by simp, h3, ih _ _ h4⟩
+
+/-- a duplicate-free list inside another list is not longer -/
+theorem length_le_of_nodup_subset {l₁ l₂ : List Int} (hn : l₁.Nodup) (hs : ∀ x ∈ l₁, x ∈ l₂) :
+    l₁.length ≤ l₂.length :=
+  (List.subperm_of_subset hn hs).length_le
+
+/-- **the flow-path hypotheses hold on a delineated area**: given what `delineate_ok_iff` says of the area
+`A` (membership = reachability), a cell `c ≠ o` of `A` first meets the outlet after
+`k+1` steps with `k+1 < A.length` -/
+theorem first_hit_of_mem_area {o : Int} {inlets A : List Int}
+    (hmem : ∀ c, c ∈ A ↔ (c = o ∧ ∃ u, Reaches codes g inlets 1 u o) ∨
+      ∃ k, 1 ≤ k ∧ Reaches codes g inlets k c o)
+    {c : Int} (hc : c ∈ A) (hco : c ≠ o) :
+    ∃ k, Reaches codes g [] (k + 1) c o ∧ (∀ j, 1 ≤ j → j ≤ k → ¬ Reaches codes g [] j c o) ∧
+      k + 1 < A.length := by
+  classical
+  -- some walk reaches the outlet
+  obtain ⟨k₀, hk₀, hr₀⟩ : ∃ k, 1 ≤ k ∧ Reaches codes g inlets k c o := by
+    rcases (hmem c).1 hc with ⟨h, _⟩ | h
+    · exact absurd h hco
+    · exact h
+  have hex : ∃ j, 1 ≤ j ∧ Reaches codes g [] j c o := ⟨k₀, hk₀, reaches_nil_of_reaches _ _ _ hr₀⟩
+  -- the first time it does
+  let k₁ := Nat.find hex
+  have hk₁ : 1 ≤ k₁ ∧ Reaches codes g [] k₁ c o := Nat.find_spec hex
+  have hmin : ∀ j, 1 ≤ j → j < k₁ → ¬ Reaches codes g [] j c o := by
+    intro j hj1 hjk hr
+    exact Nat.find_min hex hjk ⟨hj1, hr⟩
+  have hk₁₀ : k₁ ≤ k₀ := Nat.find_min' hex ⟨hk₀, reaches_nil_of_reaches _ _ _ hr₀⟩
+  -- the outlet is in the area
+  have ho : o ∈ A := by
+    rw [hmem]
+    left
+    refine ⟨rfl, ?_⟩
+    -- the last step of the walk with inlets enters the outlet
+    obtain ⟨x, _, hx2⟩ := walk_split (downStep codes g inlets) (k₀ - 1) 1 c o
+      (by have : k₀ - 1 + 1 = k₀ := by omega
+          rw [this]; exact hr₀)
+    exact ⟨x, hx2⟩
+  -- the cells before the first hit
+  have hcell : ∀ i, i < k₁ → chainCell codes g i c ∈ A ∧ chainCell codes g i c ≠ o ∧
+      Reaches codes g [] i c (chainCell codes g i c) ∧
+      Reaches codes g [] (k₁ - i) (chainCell codes g i c) o := by
+    intro i hi
+    obtain ⟨x, hx1, hx2⟩ := walk_split (downStep codes g inlets) i (k₀ - i) c o
+      (by have : i + (k₀ - i) = k₀ := by omega
+          rw [this]; exact hr₀)
+    have hxe := walk_eq_chainCell i c x hx1
+    subst hxe
+    obtain ⟨y, hy1, hy2⟩ := walk_split (downStep codes g []) i (k₁ - i) c o
+      (by have : i + (k₁ - i) = k₁ := by omega
+          rw [this]; exact hk₁.2)
+    have hye := walk_eq_chainCell i c y hy1
+    subst hye
+    refine ⟨(hmem _).2 (Or.inr ⟨k₀ - i, by omega, hx2⟩), ?_, hy1, hy2⟩
+    intro heq
+    by_cases hi0 : i = 0
+    · subst hi0; exact hco heq
+    · exact hmin i (by omega) hi (heq ▸ hy1)
+  -- they are pairwise different, and different from the outlet
+  have hnd' : (((List.range k₁).map fun i => chainCell codes g i c) ++ [o]).Nodup := by
+    rw [List.nodup_append]
+    refine ⟨?_, List.nodup_singleton o, ?_⟩
+    · rw [List.nodup_map_iff_inj_on List.nodup_range]
+      intro i hi j hj heq
+      have hi' := List.mem_range.1 hi
+      have hj' := List.mem_range.1 hj
+      by_contra hne
+      -- wlog i < j: the walk from cell i reaches the outlet in k₁ - j steps, too early
+      have key : ∀ a b, a < b → b < k₁ → chainCell codes g a c = chainCell codes g b c → False := by
+        intro a b hab hb he
+        obtain ⟨_, _, ha1, _⟩ := hcell a (by omega)
+        obtain ⟨_, _, _, hb2⟩ := hcell b hb
+        rw [← he] at hb2
+        have := walk_join (downStep codes g []) a (k₁ - b) c _ o ha1 hb2
+        exact hmin (a + (k₁ - b)) (by omega) (by omega) this
+      rcases Nat.lt_or_gt_of_ne hne with h | h
+      · exact key i j h hj' heq
+      · exact key j i h hi' heq.symm
+    · intro x hx y hy
+      rw [List.mem_map] at hx
+      obtain ⟨i, hi, rfl⟩ := hx
+      rw [List.mem_singleton] at hy
+      subst hy
+      exact (hcell i (List.mem_range.1 hi)).2.1
+  have hsub : ∀ x ∈ (((List.range k₁).map fun i => chainCell codes g i c) ++ [o]), x ∈ A := by
+    intro x hx
+    rcases List.mem_append.1 hx with h | h
+    · rw [List.mem_map] at h
+      obtain ⟨i, hi, rfl⟩ := h
+      exact (hcell i (List.mem_range.1 hi)).1
+    · rw [List.mem_singleton] at h; subst h; exact ho
+  have hlen := length_le_of_nodup_subset hnd' hsub
+  rw [List.length_append, List.length_map, List.length_range, List.length_singleton] at hlen
+  refine ⟨k₁ - 1, ?_, ?_, by omega⟩
+  · have : k₁ - 1 + 1 = k₁ := by omega
+    rw [this]; exact hk₁.2
+  · intro j hj1 hjk; exact hmin j hj1 (by omega)
 
 end HydroVerif.C06
